@@ -89,6 +89,14 @@ Goal forall (uc : unicode) (cfg : ts_config) it st text st',
      c15_contained C15ts LCode (mark (c15_file_pieces C15ts parts)) = forallb safe_ts (c15_item_docs it)).
 Proof. exact Props.C15.C15_ts_item_partial. Qed.
 Print Assumptions Props.C15.C15_ts_item_partial.
+Goal forall d : sc_decl,
+  exists parts,
+    sc_render_decl d = text_of (c15_file_pieces C15sc parts) /\
+    docs_of (c15_file_pieces C15sc parts) = Proofs.C15.sc_decl_docs d /\
+    (Forall (c15_code_neutral C15sc) parts ->
+     c15_contained C15sc LCode (mark (c15_file_pieces C15sc parts)) = forallb safe_sc (Proofs.C15.sc_decl_docs d)).
+Proof. exact Props.C15.C15_sc_render_partial. Qed.
+Print Assumptions Props.C15.C15_sc_render_partial.
 Goal Proofs.C15.c15_refutes C15kt (lit "alpha" ++ [ch_nl] ++ lit "beta").
 Proof. exact Props.C15.C15_kt_refuted. Qed.
 Print Assumptions Props.C15.C15_kt_refuted.
